@@ -115,7 +115,7 @@ def rfcTable (delayOpen dopRunning : Bool) : State → Nat → Option State
     else if n == 15 then some .openConfirm        -- "… (Event 15) is ignored."
     else if n == 18 || n == 25 then some .idle    -- TcpConnectionFails or NOTIFICATION: "changes its state to Idle."
     else if n == 24 then some .idle               -- NotifMsgVerErr
-    else if n == 19 then none                     -- BGPOpen: "the collision detect function is processed per Section 6.8"
+    else if n == 19 then some .idle               -- BGPOpen: "the collision detect function is processed per Section 6.8 … If this connection is to be dropped … changes its state to Idle" – the only next state the RFC names for Event 19 here; the implementation tracks a single connection and always drops it
     else if n == 21 || n == 22 then some .idle    -- "sends a NOTIFICATION message with the appropriate error code … Idle."
     else if n == 23 then some .idle               -- OpenCollisionDump
     else if n == 26 then some .established        -- KeepAliveMsg: "restarts the HoldTimer and changes its state to Established."
@@ -128,7 +128,7 @@ def rfcTable (delayOpen dopRunning : Bool) : State → Nat → Option State
     else if n == 11 then some .established        -- KeepaliveTimer_Expires: "sends a KEEPALIVE message, and restarts its KeepaliveTimer"
     else if n == 14 || n == 15 then some .established  -- tracked / ignored
     else if n == 16 || n == 17 then some .established  -- "the second connection SHALL be tracked until it sends an OPEN message."
-    else if n == 19 then none                     -- valid OPEN: collision detection (CollisionDetectEstablishedState, section 6.8)
+    else if n == 19 then some .idle               -- valid OPEN: collision detection (CollisionDetectEstablishedState, section 6.8); when the established connection is closed: Idle – the only next state the RFC names for Event 19 here
     else if n == 23 then some .idle               -- OpenCollisionDump
     else if n == 24 || n == 25 || n == 18 then some .idle -- NotifMsgVerErr / NotifMsg / TcpConnectionFails: "changes its state to Idle."
     else if n == 26 then some .established        -- KeepAliveMsg: "restarts its HoldTimer … remains in the Established state."
@@ -274,15 +274,12 @@ def isTodoArm (c : Ctx) : State → Kind → Bool
   | .idle, .manualStart | .idle, .automaticStart => true
   | .connect, .connectRetryTimerExpires => true
   | .connect, .tcpConnectionFails => c.dopRunning
-  | .connect, .bgpOpenDelay _ _ => true
-  | .connect, .bgpHeaderErr | .connect, .bgpOpenMsgErr | .connect, .notifMsgVerErr => true
+  | .connect, .bgpHeaderErr | .connect, .bgpOpenMsgErr => true
   | .active, .connectRetryTimerExpires => c.isExact
   | .active, .bgpHeaderErr | .active, .bgpOpenMsgErr => c.notifWithoutOpen
   | .openSent, .tcpCrAcked | .openSent, .tcpConnectionConfirmed => true
   | .openConfirm, .tcpCrAcked | .openConfirm, .tcpConnectionConfirmed => true
-  | .openConfirm, .bgpOpen _ _ => true
   | .established, .tcpCrAcked | .established, .tcpConnectionConfirmed => true
-  | .established, .bgpOpen _ _ => true
   | _, _ => false
 
 /-- The one other way an arm does not complete: an acceptable OPEN processed while no
@@ -291,6 +288,7 @@ connection, so no received message gets there. -/
 def isPanicArm (c : Ctx) : State → Kind → Bool
   | .openSent, .bgpOpen true true => !c.conn
   | .active, .bgpOpenDelay true true => !c.conn
+  | .connect, .bgpOpenDelay true true => !c.conn
   | _, _ => false
 
 /-- The `todo!()` arms are exactly the listed ones. -/
